@@ -60,7 +60,7 @@ class Channel:
 
 class FaultIO:
     def __init__(self, wplan=(), wtail=-1, rplan=(), rtail=-1, allow=48,
-                 call_budget=200000):
+                 call_budget=50000):
         self.wplan = [int(x) for x in wplan]
         self.rplan = [int(x) for x in rplan]
         self.wtail = int(wtail) or -1
